@@ -137,6 +137,11 @@ def rules(P, R, prefix="C16"):
             okr = len(rem) == 1 and rem[0]["name"] in ("remove", "remove_entry") and ctx.term(rem[0]["args"][0]) == K
             R.judge(okr, prefix + ".T3", key(new, "Write: waiters of the same key are removed" + tag), a["body"]["sp"], str([ir.pp(x)[:60] for x in rem]),
                     "the Write arm does not remove obligations[key of the write]: %s" % [ir.pp(x)[:80] for x in rem])
+            if rem:
+                ic = _inner_conds(env, new, a, rem[0])
+                R.judge(not ic, prefix + ".T3", key(new, "Write: the wake-up lookup runs for every write" + tag), rem[0]["sp"], "",
+                        "waiters of the written key are looked up only under `%s`: a write on the other branch leaves its notify_reads pending "
+                        "for ever" % " && ".join(show(c) for c in ic))
             if puts and rem:
                 doms = env.flow(new).dominators(rem[0])
                 R.judge(any(d is puts[0] for d in doms), prefix + ".T3", key(new, "Write: put precedes the wake-up" + tag), rem[0]["sp"], "",
